@@ -277,6 +277,24 @@ def driver_op():
     )
 
 
+def driver_macro():
+    """Short fixed sequences of driver ops that matter as a sequence (returned as a list; callers flatten):
+    a property switched off (or on) while its whole group is hidden, then the group shown again."""
+    i = st.integers(0, 11)
+    return st.tuples(i, i, i, st.booleans(), st.booleans()).map(
+        lambda t: [
+            {"op": "genable", "d": t[0], "g": t[1], "on": False},
+            {"op": "venable", "d": t[0], "v": t[2], "on": t[3]},
+        ] + ([{"op": "venable", "d": t[0], "v": t[2] + 1, "on": not t[3]}] if t[4] else []) + [
+            {"op": "genable", "d": t[0], "g": t[1], "on": True},
+        ]
+    )
+
+
+def flatten_ops(xs, limit=40):
+    return [o for x in xs for o in (x if isinstance(x, list) else [x])][:limit]
+
+
 def python_value(kind, val):
     """The Python value a driver author would assign for an element of `kind`."""
     if kind == "Text":
